@@ -47,7 +47,11 @@ func RunHistory(t *testing.T, col *evd.Collector, prop string, p Profile, seed i
 func RunHistoryOpt(t *testing.T, col *evd.Collector, prop string, p Profile, seed int64, setup func(*World), finish func(*World, *Gen)) *World {
 	var world *World
 	rig.SetWatchdogContext(fmt.Sprintf("%s profile=%s seed=%d", prop, p.Name, seed))
-	rig.RunCase(t, seed, rig.Opts{Tick: time.Microsecond, Trace: true}, func(e *rig.Env) {
+	tick := time.Microsecond
+	if p.NoTick {
+		tick = 0
+	}
+	rig.RunCase(t, seed, rig.Opts{Tick: tick, Trace: true}, func(e *rig.Env) {
 		w := NewWorld(e, prop)
 		world = w
 		if setup != nil {
